@@ -9,6 +9,9 @@ import multiprocessing as mp
 
 from harness import coqio, translate
 
+if hasattr(sys, 'set_int_max_str_digits'):
+    sys.set_int_max_str_digits(0)      # bit masks of long recordings are written as one integer
+
 VERIF = '/verif'
 COQDIR = VERIF + '/coq'
 WORK = VERIF + '/.work'
